@@ -24,7 +24,7 @@ def epochs_of(tasks):
 class C13(Prop):
     ID = 'C13'
     CORRESPONDENCE = 'PlaybackModel.Equalizer.runFrom/finish (worker epochs, tasks per worker, live processes) vs Equalizer.run_comparison'
-    RULE = ('one case = one sequence of 2-8 recordings with hangs / worker deaths / late answers at chosen positions (first, '
+    RULE = ('one case = one sequence of 2-8 recordings with hangs / worker deaths / late answers / results the parent cannot read back at chosen positions (first, '
             'last, consecutive, recycle boundaries), recycle rate 0-4, time-out 0.5-2 s, consumed completely, closed after k or '
             'aborted by a consumer exception after k, on the real Equalizer with real worker processes; non-trivial = at least '
             'one fault or an early end; distinct = distinct canonical case')
